@@ -406,7 +406,10 @@ func (l *Log) Maintenance(interval time.Duration, snapf string, stopc <-chan str
 			return size, err
 		}
 		if size, err = l.Snapshot(f); err != nil {
-			f.Close()
+			// Do not use f.Close here: it would rename the incomplete
+			// temporary file over the last good snapshot.
+			f.File.Close()
+			os.Remove(f.Name())
 			return size, err
 		}
 		return size, f.Close()
